@@ -183,11 +183,17 @@ def run(tier, seed, out, drv, facts):
             o1, o2 = observe(spec), observe(plain)
             if o1 != o2:
                 out.violation(f"whitespace:{plain}", f"{spec!r} and {plain!r} differ only in whitespace but observe {o1} vs {o2}", {"a": spec, "b": plain})
+    # mostly-VALID specifications from the grammar generator of C01 (the exhaustive families above are mostly errors)
+    import gen_dims
+
+    for _ in range(20000 if thorough else 1500):
+        specs.append(gen_dims.rand_dims(rng, max_axes=5, holes=("n",), treepath=rng.chance(1, 4)))
     want = model_observe(drv, specs)
     for spec, w in zip(specs, want):
         g = obs.get(spec) or observe(spec)
         if spec not in obs:
             out.case(("spec", spec), len(spec.split()) > 1, sample={"spec": spec, "observed": g})
+            out.count("spec_" + g[0].split(":")[0])
         if w[0] == "UNMODELLED":
             out.count("unmodelled")
             if g[0] not in ("ok", "VAL"):
